@@ -25,6 +25,7 @@ import (
 	"strings"
 	"time"
 
+	blockrelaytypes "github.com/attestantio/go-block-relay/types"
 	"github.com/attestantio/go-eth2-client/spec/bellatrix"
 	"github.com/attestantio/go-eth2-client/spec/phase0"
 
@@ -50,7 +51,29 @@ type plan struct {
 	FaultVal  int           `json:"fault_val"`
 	FaultFrom time.Duration `json:"fault_from"`
 	FaultTo   time.Duration `json:"fault_to"`
+	// Forward: registrations made elsewhere (a standby validator client, a beacon node's default) which a beacon
+	// node hands to vouch's builder endpoint; vouch passes them on to relays except for its own validators.
+	Forward []fwdCall `json:"forward,omitempty"`
 }
+
+// fwdReg is one registration made elsewhere.
+type fwdReg struct {
+	Val int    `json:"val"` // validator number; numbers past vouch's validators are validators vouch does not manage
+	Fee int    `json:"fee"` // address pool index
+	Gas uint64 `json:"gas"`
+}
+
+// fwdCall is one call of the builder endpoint (ValidatorRegistrations).
+type fwdCall struct {
+	At   time.Duration `json:"at"`
+	Regs []fwdReg      `json:"regs"`
+}
+
+// foreignGas is a gas limit no generated configuration contains.
+const foreignGas = 31000000
+
+// foreignFeeBase: address pool indices from here on are in no generated configuration (those use 0..9 and the fallback).
+const foreignFeeBase = 20
 
 func gen(p *simrt.Tape) any {
 	pl := &plan{World: relaysim.GenWorldSpec(p, 2, 5), FaultVal: -1}
@@ -138,8 +161,82 @@ func gen(p *simrt.Tape) any {
 		pl.FaultFrom = time.Duration(p.Range(0, pl.Epochs-1)) * epoch
 		pl.FaultTo = pl.FaultFrom + time.Duration(p.Range(1, 2))*epoch
 	}
+	// registrations made elsewhere, handed to the builder endpoint (drawn last: earlier draws keep their meaning)
+	lastAt := time.Duration(pl.Epochs*8-8)*time.Second + 500*time.Millisecond // before the end of the run for every start offset
+	fwdOffsets := []time.Duration{500 * time.Millisecond, 500 * time.Millisecond, 500 * time.Millisecond, 0, 80 * time.Millisecond}
+	nf := p.Range(0, 3)
+	for i := 0; i < nf; i++ {
+		fc := fwdCall{At: time.Duration(p.Range(0, pl.Epochs*8-8))*time.Second + fwdOffsets[p.Pick(len(fwdOffsets))]}
+		must := -1
+		if i == 0 && pl.FaultVal >= 0 && p.Pct(70) {
+			// while (or shortly after) the signer refuses that validator: the standby's registration for it arrives
+			fc.At = pl.FaultFrom + time.Duration(p.Range(0, int((pl.FaultTo-pl.FaultFrom)/time.Second)))*time.Second + 500*time.Millisecond
+			must = pl.FaultVal
+		}
+		if fc.At > lastAt {
+			fc.At = lastAt
+		}
+		for v := range ws.Vals {
+			if p.Pct(60) || v == must {
+				fc.Regs = append(fc.Regs, genFwdReg(p, v))
+			}
+		}
+		for k, n := 0, p.Range(0, 2); k < n; k++ {
+			fc.Regs = append(fc.Regs, genFwdReg(p, len(ws.Vals)+p.Pick(3)))
+		}
+		pl.Forward = append(pl.Forward, fc)
+	}
+	sort.SliceStable(pl.Forward, func(i, j int) bool { return pl.Forward[i].At < pl.Forward[j].At })
 	return pl
 }
+
+func genFwdReg(p *simrt.Tape, val int) fwdReg {
+	r := fwdReg{Val: val, Fee: foreignFeeBase + p.Pick(8), Gas: foreignGas}
+	if p.Pct(25) {
+		r.Fee = p.Pick(10) // may be the configured one
+	}
+	if p.Pct(50) {
+		r.Gas = relaysim.GasPool[p.Pick(len(relaysim.GasPool))]
+	}
+	return r
+}
+
+// fwdRec is one call of the builder endpoint as the harness made it.
+type fwdRec struct {
+	idx               int
+	callT, retT       time.Duration
+	callStep, retStep int
+	regs              []relaysim.RegRec
+	err               error
+}
+
+// Registrations made elsewhere carry a signature no BLS signer produces (a compressed point never starts with a
+// zero byte), which also says which call and which entry they came from.
+var fwdMark = [7]byte{0x00, 'C', '1', '1', 'f', 'w', 'd'}
+
+func fwdSig(call, entry int) phase0.BLSSignature {
+	var sig phase0.BLSSignature
+	for i := range sig {
+		sig[i] = 0x5a
+	}
+	copy(sig[:], fwdMark[:])
+	sig[7], sig[8] = byte(call), byte(entry)
+	return sig
+}
+
+// forwardedCall: the submission contains a registration made elsewhere; which builder endpoint call it came from.
+func forwardedCall(s *relaysim.Submission) (int, bool) {
+	for _, g := range s.Regs {
+		if string(g.Sig[:7]) == string(fwdMark[:]) {
+			return int(g.Sig[7]), true
+		}
+	}
+	return -1, false
+}
+
+// foreignPub is the public key of validator number n >= number of vouch's validators (the first of them is the
+// one configuration documents may name: relaysim renders key NVals as RelayPub(40+NVals)).
+func foreignPub(n int) phase0.BLSPubKey { return relaysim.RelayPub(40 + n) }
 
 type prepCall struct {
 	callT, retT       time.Duration
@@ -152,6 +249,7 @@ func exec(plAny any, sched *simrt.Tape) *sim.Outcome {
 	out := &sim.Outcome{Probes: map[string]int{}, Sample: pl}
 	var w *relaysim.World
 	var preps []*prepCall
+	var fwds []*fwdRec
 	var stopT time.Duration
 
 	res := sim.Run(sched, 30*time.Minute, 400000, nil, func(ctx context.Context) {
@@ -198,6 +296,35 @@ func exec(plAny any, sched *simrt.Tape) *sim.Outcome {
 				simrt.Crit(func() { pc.err, pc.retT, pc.retStep = err, simrt.Now(), simrt.Step() })
 			}
 		})
+		// a beacon node handing over registrations made elsewhere (its builder endpoint is vouch)
+		if len(pl.Forward) > 0 {
+			simrt.Go("builder-endpoint", func() {
+				for i, fc := range pl.Forward {
+					if simrt.Sleep(ctx, fc.At-simrt.Now(), "c11/forward") != nil {
+						return
+					}
+					fr := &fwdRec{idx: i}
+					var regs []*blockrelaytypes.SignedValidatorRegistration
+					for k, g := range fc.Regs {
+						pk := foreignPub(g.Val)
+						if g.Val < len(w.Vals) {
+							pk = w.Vals[g.Val].PubKey
+						}
+						rr := relaysim.RegRec{Fee: relaysim.FeeAddr(g.Fee), Gas: g.Gas, Timestamp: SimEpoch.Add(simrt.Now()).Round(time.Second), PubKey: pk, Sig: fwdSig(i, k)}
+						fr.regs = append(fr.regs, rr)
+						regs = append(regs, &blockrelaytypes.SignedValidatorRegistration{
+							Message:   &blockrelaytypes.ValidatorRegistration{FeeRecipient: rr.Fee, GasLimit: rr.Gas, Timestamp: rr.Timestamp, Pubkey: rr.PubKey},
+							Signature: rr.Sig,
+						})
+					}
+					fr.callT, fr.callStep = simrt.Now(), simrt.Step()
+					simrt.Crit(func() { fwds = append(fwds, fr) })
+					_, err := w.Svc.ValidatorRegistrations(svcCtx, regs)
+					simrt.Yield("c11/forwarded")
+					simrt.Crit(func() { fr.err, fr.retT, fr.retStep = err, simrt.Now(), simrt.Step() })
+				}
+			})
+		}
 		simrt.Sleep(ctx, end, "c11/run")
 		simrt.Crit(func() { stopT = simrt.Now() })
 		stop()
@@ -212,7 +339,7 @@ func exec(plAny any, sched *simrt.Tape) *sim.Outcome {
 		}
 		return out
 	}
-	out.Violation = oracle(pl, w, preps, stopT, out)
+	out.Violation = oracle(pl, w, preps, fwds, stopT, out)
 	return out
 }
 
@@ -229,7 +356,7 @@ type regEvent struct {
 	reg   relaysim.RegRec
 }
 
-func oracle(pl *plan, w *relaysim.World, preps []*prepCall, stopT time.Duration, out *sim.Outcome) *simrt.Violation {
+func oracle(pl *plan, w *relaysim.World, preps []*prepCall, fwds []*fwdRec, stopT time.Duration, out *sim.Outcome) *simrt.Violation {
 	var first, firstNew *simrt.Violation
 	report := func(v *simrt.Violation) {
 		if first == nil {
@@ -311,6 +438,9 @@ func oracle(pl *plan, w *relaysim.World, preps []*prepCall, stopT time.Duration,
 			for _, s := range rl.Subs {
 				if !in(s.Step) {
 					continue
+				}
+				if _, fw := forwardedCall(s); fw {
+					continue // not a submission of the round: judged with the builder endpoint calls below
 				}
 				subsTo[rl.Party]++
 				if firstSub < 0 || s.T < firstSub {
@@ -595,10 +725,134 @@ func oracle(pl *plan, w *relaysim.World, preps []*prepCall, stopT time.Duration,
 		// faults that fired inside this round
 		for _, rl := range w.Relays {
 			for _, s := range rl.Subs {
+				if _, fw := forwardedCall(s); fw {
+					continue
+				}
 				if in(s.Step) && !s.OK {
 					out.Probes["round-with-failing-relay"]++
 					if s.EndT == 0 || s.EndT-s.T > 2*time.Second {
 						out.Probes["round-with-hanging-relay"]++
+					}
+				}
+			}
+		}
+	}
+
+	// Registrations made elsewhere and handed to the builder endpoint.  Vouch may pass them on; but what a relay is
+	// told about one of vouch's own validators that is about to be active must be what the configuration says
+	// for that relay, signed by that validator - whoever made the registration that is passed on.  (Nothing is
+	// demanded for validators vouch does not manage, nor on how quickly anything is passed on.)
+	for _, f := range fwds {
+		if f.callT >= stopT-time.Millisecond {
+			continue
+		}
+		out.Probes["builder-endpoint-calls"]++
+		// Which validators does vouch know to be its own and about to be active?  Those of the answer to the
+		// latest registration round's question "who validates in epoch E" that it received - provided that round
+		// was over with preparing its registrations when the call came (same instant: order unknown).
+		var known *relaysim.AccountsCall
+		ambiguous := false
+		for i := range rounds {
+			rd := &rounds[i]
+			if rd.T > f.callT {
+				break
+			}
+			if rd.T == f.callT {
+				ambiguous = true
+				break
+			}
+			anyActive := false
+			for _, v := range w.Vals {
+				anyActive = anyActive || w.ActiveAt(v, rd.Epoch)
+			}
+			if rd.Err || !anyActive {
+				continue // vouch learned nothing from this round
+			}
+			known = rd
+			// the round's signing requests: all made at an earlier instant than the call?
+			endStep := int(^uint(0) >> 1)
+			if i+1 < len(rounds) {
+				endStep = rounds[i+1].Step
+			}
+			ambiguous = false
+			for _, q := range reqs {
+				if q.Step >= rd.Step && q.Step < endStep && q.T >= f.callT {
+					ambiguous = true
+				}
+			}
+			for _, c := range w.Script.CallsOf("chain", "GenesisDomain") {
+				if c.Step >= rd.Step && c.Step < endStep && (c.T >= f.callT || c.EndT >= f.callT) {
+					ambiguous = true
+				}
+			}
+			for _, c := range w.Script.CallsOf("accounts", "ValidatingAccountsForEpoch/register") {
+				if c.Step >= rd.Step && c.Step < endStep && c.EndT >= f.callT {
+					ambiguous = true
+				}
+			}
+		}
+		if ambiguous {
+			out.Probes["builder-endpoint-call-at-the-instant-of-a-round"]++
+			continue
+		}
+		if known == nil {
+			out.Probes["builder-endpoint-call-before-any-round"]++
+			continue
+		}
+		own := func(pk phase0.BLSPubKey) *relaysim.Val {
+			if v := w.ValByPub(pk); v != nil && w.ActiveAt(v, known.Epoch) {
+				return v
+			}
+			return nil
+		}
+		handed := map[int]bool{}
+		for _, g := range f.regs {
+			if v := own(g.PubKey); v != nil {
+				handed[v.N] = true
+			}
+		}
+		if len(handed) > 0 {
+			out.Probes["builder-endpoint-call-with-own-validator"]++
+			if pl.FaultVal >= 0 && handed[pl.FaultVal] && f.callT >= pl.FaultFrom && f.callT < pl.FaultTo {
+				out.Probes["builder-endpoint-call-for-validator-whose-signer-fails"]++
+			}
+		}
+		for _, rl := range w.Relays {
+			for _, s := range rl.Subs {
+				if n, fw := forwardedCall(s); !fw || n != f.idx {
+					continue
+				}
+				out.Probes["relay-submissions-passed-on"]++
+				cands := w.Source.InForce(f.callT, s.T)
+				for i := range s.Regs {
+					g := &s.Regs[i]
+					v := own(g.PubKey)
+					if v == nil {
+						out.Probes["registration-passed-on"]++
+						continue
+					}
+					var prob *simrt.Violation
+					for _, c := range cands {
+						ref := relaysim.Resolve(w, c, v)
+						rr := ref.Relays[rl.N]
+						prob = nil
+						switch {
+						case ref.Unspec:
+						case rr == nil:
+							prob = Viol("C11/passed-on-registration-to-unconfigured-relay", "builder endpoint call at %v: relay %d received a registration for vouch's validator %s (fee %d, gas %d) though it is not in that validator's resolved settings %v", f.callT, rl.N, v.Name, relaysim.FeeIndex(g.Fee), g.Gas, ref.RelayList())
+						case relaysim.FeeIndex(g.Fee) != rr.Fee:
+							prob = Viol("C11/passed-on-registration-wrong-fee-recipient", "builder endpoint call at %v: relay %d was told fee recipient %d for vouch's validator %s (about to be active in epoch %d), resolved %d", f.callT, rl.N, relaysim.FeeIndex(g.Fee), v.Name, known.Epoch, rr.Fee)
+						case g.Gas != rr.Gas:
+							prob = Viol("C11/passed-on-registration-wrong-gas-limit", "builder endpoint call at %v: relay %d was told gas limit %d for vouch's validator %s (about to be active in epoch %d), resolved %d", f.callT, rl.N, g.Gas, v.Name, known.Epoch, rr.Gas)
+						case !verify(v, g):
+							prob = Viol("C11/passed-on-registration-bad-signature", "builder endpoint call at %v: relay %d received for vouch's validator %s a registration (fee %d, gas %d) that validator did not sign", f.callT, rl.N, v.Name, relaysim.FeeIndex(g.Fee), g.Gas)
+						}
+						if prob == nil {
+							break
+						}
+					}
+					if prob != nil {
+						report(prob)
 					}
 				}
 			}
